@@ -208,7 +208,8 @@ def check_log(log, docs_sorted, mode, variant, fixcfg, enabled, final_contents):
                 # the tokens of a pass are those of the content the pass started from; lines may
                 # already carry the fixes of rules earlier in the same pass (streaming design), so
                 # the run must be the token list of a known content or of the delivered lines
-                rest = run
+                had_pragma = any(t.startswith("[pragma:") for t in run)
+                rest = tuple(t for t in run if not t.startswith("[pragma:"))
                 progress = True
                 while progress and rest not in cand_tokens and (toks is None or rest != tuple(toks)):
                     progress = False
@@ -217,11 +218,11 @@ def check_log(log, docs_sorted, mode, variant, fixcfg, enabled, final_contents):
                             rest = rest[len(ct) :]
                             progress = True
                             break
-                if rest not in cand_tokens and (toks is None or rest != tuple(toks)):
-                    nop = tuple(t for t in rest if not t.startswith("[pragma:"))
-                    if nop != rest and (nop in cand_tokens or (toks is not None and nop == tuple(toks))):
-                        return "pragma token delivered to rules in a fix pass (scan mode strips it)", stats
+                if "S" in defined and rest not in cand_tokens and (toks is None or rest != tuple(toks)):
+                    # (without start events the content a pass started from is unknown to the harness)
                     return "tokens delivered in a fix pass are neither those of the file at the start of a pass nor those of the lines delivered", stats
+                if had_pragma:
+                    return "pragma token delivered to rules in a fix pass (scan mode strips it)", stats
             i = k
         elif log[i][0] == "L":
             j = i
